@@ -67,6 +67,14 @@ type vC08Rec struct {
 	ev    [][]any
 	chans map[lnwire.ChannelID]int
 	scids map[lnwire.ShortChannelID]int
+
+	// directed scenarios only (see vC08DirectedStop): onAdds runs once
+	// inside CommitCircuits right after circuits were added; CloseCircuit
+	// of the HTLC id holdID parks the calling goroutine until release.
+	onAdds  func()
+	holdID  uint64
+	held    chan struct{}
+	release chan struct{}
 }
 
 func (r *vC08Rec) add(e ...any) {
@@ -311,6 +319,17 @@ func (c *vC08Circuits) CommitCircuits(circuits ...*PaymentCircuit) (
 	}
 	if acts != nil {
 		c.r.add("c", "commit", conv(acts.Adds), conv(acts.Drops), conv(acts.Fails), err != nil)
+		c.r.mu.Lock()
+		hook := c.r.onAdds
+		if len(acts.Adds) > 0 {
+			c.r.onAdds = nil
+		} else {
+			hook = nil
+		}
+		c.r.mu.Unlock()
+		if hook != nil {
+			hook()
+		}
 	}
 	return acts, err
 }
@@ -328,6 +347,17 @@ func (c *vC08Circuits) OpenCircuits(ks ...Keystone) error {
 }
 
 func (c *vC08Circuits) CloseCircuit(outKey CircuitKey) (*PaymentCircuit, error) {
+	c.r.mu.Lock()
+	held, release := c.r.held, c.r.release
+	park := held != nil && outKey.HtlcID == c.r.holdID
+	if park {
+		c.r.held = nil
+	}
+	c.r.mu.Unlock()
+	if park {
+		close(held)
+		<-release
+	}
 	pc, err := c.CircuitMap.CloseCircuit(outKey)
 	es := ""
 	var in []any
@@ -759,19 +789,20 @@ type vC08End struct {
 }
 
 type vC08Case struct {
-	Case         int          `json:"case"`
-	Fault        string       `json:"fault"`
-	Pays         []*vC08Pay   `json:"pays"`
-	Init         []vC08End    `json:"init"`
-	End          []vC08End    `json:"end"`
-	Events       [][]any      `json:"events"`
-	Quiescent    bool         `json:"quiescent"`
-	Why          string       `json:"why"`
-	Circuits     [][]int      `json:"circuits"` // per node [pending, open]
-	Dropped      int          `json:"dropped"`
-	Faults       []*vC08Fault `json:"faults"`
-	LinkFailures int          `json:"link_failures"`
-	WallMs       int64        `json:"wall_ms"`
+	Case         int            `json:"case"`
+	Fault        string         `json:"fault"`
+	Pays         []*vC08Pay     `json:"pays"`
+	Init         []vC08End      `json:"init"`
+	End          []vC08End      `json:"end"`
+	Events       [][]any        `json:"events"`
+	Quiescent    bool           `json:"quiescent"`
+	Why          string         `json:"why"`
+	Circuits     [][]int        `json:"circuits"` // per node [pending, open]
+	Dropped      int            `json:"dropped"`
+	Faults       []*vC08Fault   `json:"faults"`
+	LinkFailures int            `json:"link_failures"`
+	WallMs       int64          `json:"wall_ms"`
+	Extra        map[string]any `json:"extra,omitempty"`
 }
 
 var vC08Amounts = []uint64{
@@ -1222,10 +1253,106 @@ func TestVerifFwdPkgReplay(t *testing.T) {
 	vC08Probe(t, out)
 }
 
+// vC08DirectedStop is the DIRECTED scenario for a peer disconnect in the
+// middle of forwarding (no randomness, no retries): one payment Alice->Carol.
+// Schedule at Bob:
+//  1. the switch's htlcForwarder goroutine is busy (here: parked inside
+//     CircuitMap.CloseCircuit of a response for an unknown circuit);
+//  2. the add is locked in on channel 1, the incoming link runs
+//     processRemoteAdds -> ForwardPackets -> CommitCircuits (circuit persisted,
+//     half-open);
+//  3. before ForwardPackets hands the packet to the switch the incoming link is
+//     told to stop (Switch.RemoveLink = peer disconnect; link.Stop closes the
+//     quit channel first and then waits for the running handler);
+//  4. the forwarder becomes free again, channel 1 is re-established.
+//
+// Afterwards the payment must still end (settled both hops / failed both hops).
+func vC08DirectedStop(t *testing.T) *vC08Case {
+	start := time.Now()
+	rg := vNewRng(78)
+	c := &vC08Case{Case: 1001, Fault: "probe_stop", Extra: map[string]any{}}
+	v := vC08Setup(t, rg.fork(501))
+	defer func() { v.n.stop() }()
+	c.Init = vC08Ends(v.n, v.rec)
+	rec, n := v.rec, v.n
+	bob := n.bobServer.htlcSwitch
+
+	// 1. park the forwarder
+	held, release := make(chan struct{}), make(chan struct{})
+	rec.mu.Lock()
+	rec.holdID, rec.held, rec.release = 0xdeadbeef, held, release
+	rec.mu.Unlock()
+	errs := make(chan error, 1)
+	if err := bob.routeAsync(&htlcPacket{
+		outgoingChanID: n.secondBobChannelLink.ShortChanID(),
+		outgoingHTLCID: 0xdeadbeef,
+		htlc:           &lnwire.UpdateFailHTLC{},
+	}, errs, nil); err != nil {
+		t.Fatal(err)
+	}
+	<-held
+
+	// 3. (armed now, runs inside CommitCircuits of step 2)
+	link1 := n.firstBobChannelLink
+	stopped := make(chan struct{})
+	rec.mu.Lock()
+	rec.onAdds = func() {
+		go func() {
+			bob.RemoveLink(link1.ChanID())
+			close(stopped)
+		}()
+		<-link1.cg.Done()
+	}
+	rec.mu.Unlock()
+
+	// 2. the payment
+	p := &vC08Pay{Idx: 0, Kind: "ok", Dir: "AC", InChan: 1, OutChan: 2, Amt: 1000000}
+	c.Pays = []*vC08Pay{p}
+	run, err := vC08Launch(v, p, rg.fork(1000))
+	if err != nil {
+		t.Fatal(err)
+	}
+	var wg sync.WaitGroup
+	wg.Add(1)
+	go func() { defer wg.Done(); run() }()
+	select {
+	case <-stopped:
+	case <-time.After(10 * time.Second):
+		t.Fatalf("incoming link was never stopped")
+	}
+
+	// 4.
+	close(release)
+	if err := v.flap(1); err != nil {
+		t.Fatal(err)
+	}
+	wg.Wait()
+	c.Faults = []*vC08Fault{{Kind: "flap", Chan: 1, Fired: "directed"}}
+	v.finish(c, start)
+
+	// What repairs a stuck HTLC?  Restart the whole switch and look again.
+	if !c.Quiescent {
+		if err := v.restartBob(); err != nil {
+			t.Fatal(err)
+		}
+		q, why := vC08Quiet(v.n, v.rec)
+		c.Extra["after_switch_restart_quiescent"] = q
+		c.Extra["after_switch_restart_why"] = why
+		c.Extra["after_switch_restart_ends"] = vC08Ends(v.n, v.rec)
+	}
+	return c
+}
+
 func vC08Probe(t *testing.T, out *vWriter) {
 	pt, qt := vC08PayTimeout, vC08QuietTimeout
 	vC08PayTimeout, vC08QuietTimeout = 6*time.Second, 4*time.Second
 	defer func() { vC08PayTimeout, vC08QuietTimeout = pt, qt }()
+	t.Run("directed_stop", func(t *testing.T) {
+		vC08PayTimeout, vC08QuietTimeout = 4*time.Second, 2*time.Second
+		c := vC08DirectedStop(t)
+		vC08PayTimeout, vC08QuietTimeout = 6*time.Second, 4*time.Second
+		out.emit(c)
+	})
 	for attempt := 0; attempt < 4; attempt++ {
 		var (
 			c  *vC08Case
